@@ -151,6 +151,7 @@ class AigerSectionsUnit(PMUnit):
                 return Code(t, ty, pre + [f"let {t} ← {call}"])
             return h
 
+        self.tok_handler = tok           # for subclasses (unit_aigerbinsections.py)
         res = lambda t: f"Result<{t}, ParseError>"
         self.functions.update({
             "token::lit": tok("Aiger.lit", res("usize"), ["str", "usize", "bool"]),
